@@ -19,6 +19,7 @@ import (
 	_ "github.com/duckdb/duckdb-go/v2"
 	"github.com/rs/zerolog"
 
+	"github.com/basekick-labs/arc/internal/database"
 	"github.com/basekick-labs/arc/internal/pruning"
 	"github.com/basekick-labs/arc/internal/storage"
 )
@@ -118,13 +119,11 @@ func TestC16Demo_Probes(t *testing.T) {
 		"SELECT c.host AS r FROM cpu c ANTI JOIN mem m ON c.host = m.region ORDER BY r",
 		"SELECT c.host AS r FROM cpu c NATURAL JOIN mem m ORDER BY r",
 		"SELECT c.host AS r FROM cpu c INNER JOIN mem m USING (host) ORDER BY r",
-		"SELECT c.host AS r FROM cpu c, mem m WHERE c.host = m.region ORDER BY r",
 		"WITH x AS (SELECT host FROM cpu WHERE v > 1) SELECT host AS r FROM x ORDER BY r",
 		"WITH x AS (SELECT host FROM cpu), y AS (SELECT host FROM mem WHERE v < 3) SELECT x.host AS r FROM x JOIN y ON x.host = y.host ORDER BY r",
 		"WITH x(h) AS (SELECT host FROM cpu) SELECT h AS r FROM x ORDER BY r",
 		"SELECT host AS r FROM cpu WHERE v > (SELECT min(v) FROM mem) ORDER BY r",
 		"SELECT host AS r FROM (SELECT host FROM cpu WHERE v >= 2) t ORDER BY r",
-		"SELECT host AS r FROM cpu WHERE EXISTS (SELECT 1 FROM mem WHERE mem.host = cpu.host AND mem.v > 2) ORDER BY r",
 		"SELECT CAST(EXTRACT(year FROM TIMESTAMP '2024-01-01') AS VARCHAR) || host AS r FROM cpu ORDER BY r",
 		"SELECT SUBSTRING(host FROM 1 FOR 1) AS r FROM cpu ORDER BY r",
 		"SELECT TRIM(BOTH 'a' FROM host) AS r FROM cpu ORDER BY r",
@@ -163,6 +162,47 @@ func TestC16Demo_Probes(t *testing.T) {
 		got, gerr = c16Rows(arc, conv)
 		if (werr != nil) != (gerr != nil) || !reflect.DeepEqual(got, want) {
 			t.Errorf("DOTTED answers differ\n  sql:    %q\n  duckdb: %v %v\n  arc:    %v %v\n  arc sql: %s", q2, want, werr, got, gerr, conv)
+		}
+	}
+}
+
+// OPEN findings (these FAIL on the current tree; existing tests pin the rewritten
+// text `FROM read_parquet(...)` so neither is repaired here):
+//   - no pattern covers the table position after a comma in a FROM list;
+//   - the replacement drops the table's own name, so columns qualified by it
+//     no longer resolve.
+func TestC16Demo_OpenFindings(t *testing.T) {
+	h, db, arc := c16Env(t)
+	for _, q := range []string{
+		"SELECT c.host AS r FROM cpu c, mem m WHERE c.host = m.region ORDER BY r",
+		"SELECT host AS r FROM cpu WHERE EXISTS (SELECT 1 FROM mem WHERE mem.host = cpu.host AND mem.v > 2) ORDER BY r",
+	} {
+		want, werr := c16Rows(db, q)
+		conv := h.convertSQLToStoragePathsWithHeaderDB(context.Background(), q, "prod")
+		got, gerr := c16Rows(arc, conv)
+		if (werr != nil) != (gerr != nil) || !reflect.DeepEqual(got, want) {
+			t.Errorf("answers differ\n  sql:    %q\n  duckdb: %v %v\n  arc:    %v %v", q, want, werr, got, gerr)
+		}
+	}
+}
+
+// A string literal or a comment that merely names read_parquet made
+// getTransformedSQL return the statement untransformed.
+func TestC16Demo_ReadParquetNamedInLiteralOrComment(t *testing.T) {
+	h, db, arc := c16Env(t)
+	h.queryCache = database.NewQueryCache(database.QueryCacheTTL, 10)
+	for _, q := range []string{
+		"SELECT host AS r FROM cpu WHERE region = 'read_parquet' OR v > 1 ORDER BY r",
+		"SELECT host AS r FROM cpu -- not read_parquet\nORDER BY r",
+	} {
+		if err := ValidateSQLRequest(q); err != nil {
+			t.Fatalf("rejected by validation: %v", err)
+		}
+		want, werr := c16Rows(db, q)
+		conv, _ := h.getTransformedSQL(context.Background(), q, "prod")
+		got, gerr := c16Rows(arc, conv)
+		if (werr != nil) != (gerr != nil) || !reflect.DeepEqual(got, want) {
+			t.Errorf("answers differ\n  sql:    %q\n  duckdb: %v %v\n  arc:    %v %v", q, want, werr, got, gerr)
 		}
 	}
 }
